@@ -1813,16 +1813,19 @@ pub unsafe fn abi_entry<T: AbiExportableImplementation>(flag: AbiProtocol) {
 /// 'path' is a path where files defining the Abi schema are stored. These files
 /// should be checked in to version control.
 pub fn verify_compatiblity<T: AbiExportable + ?Sized>(path: &str) -> Result<(), SavefileError> {
+    // Data version used for the recorded definitions. Version 2 is the first version in which
+    // method receiver kind and the async flag are persisted; files recorded at version 1 are still readable.
+    const LEDGER_DATA_VERSION: u32 = 2;
     std::fs::create_dir_all(path)?;
     for version in 0..=T::get_latest_version() {
         let def = T::get_definition(version);
         let schema_file_name = Path::join(Path::new(path), format!("savefile_{}_{}.schema", def.name, version));
         if std::fs::metadata(&schema_file_name).is_ok() {
-            let previous_schema = load_file_noschema(&schema_file_name, 1)?;
+            let previous_schema = load_file_noschema(&schema_file_name, LEDGER_DATA_VERSION)?;
 
             def.verify_backward_compatible(version, &previous_schema, false)?;
         } else {
-            save_file_noschema(&schema_file_name, 1, &def)?;
+            save_file_noschema(&schema_file_name, LEDGER_DATA_VERSION, &def)?;
         }
     }
     Ok(())
